@@ -13,9 +13,9 @@ done
 echo "suite passes with change: $mods"
 cp _seed/demo_test.go $pkg/zz_seed_demo_test.go
 ( cd $pkg && timeout 300 go test -count=1 -run "$re" . >/tmp/vs_with.log 2>&1 ); rc_with=$?
-git stash -q
+git diff > /tmp/vs_change.$$.diff; git apply -R /tmp/vs_change.$$.diff
 ( cd $pkg && timeout 300 go test -count=1 -run "$re" . >/tmp/vs_without.log 2>&1 ); rc_without=$?
-git stash pop -q
+git apply /tmp/vs_change.$$.diff; rm -f /tmp/vs_change.$$.diff
 rm -f $pkg/zz_seed_demo_test.go
 echo "demo with change rc=$rc_with (want !=0); without rc=$rc_without (want 0)"
 [ $rc_with -ne 0 ] && [ $rc_without -eq 0 ] && echo VERIFIED || { echo NOT-VERIFIED; tail -5 /tmp/vs_with.log /tmp/vs_without.log; exit 1; }
